@@ -281,6 +281,27 @@ class Interp(ExprMixin, CallMixin):
             return [st]
         if isinstance(target, (ast.Tuple, ast.List)):
             elts = target.elts
+            stars = [i for i, t in enumerate(elts) if isinstance(t, ast.Starred)]
+            if len(stars) == 1 and v.k == 'row':
+                # (a, b, *rest) = row : the starred name takes the remaining columns of the SELECT, in order
+                stmt = st.trace[v.a[0]].d.get('stmt')
+                if stmt is not None and stmt.kind == 'select' and stmt.colnames and '*' not in stmt.colnames \
+                        and not any('⟦' in c for c in stmt.colnames) and len(stmt.colnames) >= len(elts) - 1:
+                    ncol, i0 = len(stmt.colnames), stars[0]
+                    nrest = ncol - (len(elts) - 1)
+                    cols = [self.col_of(v.a[0], i, st, node) for i in range(ncol)]
+                    pieces = cols[:i0] + [V('tuple', tuple(cols[i0:i0 + nrest]))] + cols[i0 + nrest:]
+                    res = [st]
+                    for t, item in zip(elts, pieces):
+                        tt = t.value if isinstance(t, ast.Starred) else t
+                        nxt = []
+                        for s in res:
+                            if isinstance(s, tuple):
+                                nxt.append(s)
+                            else:
+                                nxt.extend(self.assign(tt, item, s, node))
+                        res = nxt
+                    return res
             items = self.unpack(v, len(elts), st, node)
             res = [st]
             for t, item in zip(elts, items):
